@@ -111,7 +111,7 @@ impl<I: Interner> Forest<I> {
                     let result =
                         match infer.relate(interner, db, &environment, Variance::Covariant, a, b) {
                             Ok(r) => r,
-                            Err(_) => return FallibleOrFloundered::Floundered,
+                            Err(_) => return FallibleOrFloundered::NoSolution,
                         };
                     ex_clause.subgoals.extend(
                         result
